@@ -44,6 +44,8 @@ m = {
          "kind_free_text": "deviation-bounded enumeration of allocator answers (single refusal, fail-stop, pairs) per scenario"},
         {"name": "E4-fragment-state", "path": "harness/chk_frag.c", "serves_properties": [p for p in ALL if CHECKS.get(p, {}).get("engine") == "E4-fragment-state"],
          "kind_free_text": "explicit-state search of the streaming client's state graph with the real decoder as transition function"},
+        {"name": "E5-thread-schedule", "path": "harness/vf_sched.c, harness/chk_threads.c", "serves_properties": [p for p in ALL if CHECKS.get(p, {}).get("engine") == "E5-thread-schedule"],
+         "kind_free_text": "deterministic coroutine scheduler over compiler-instrumented memory accesses of the real library; iterative preemption-bounded DFS; race / frozen-store / digest oracles"},
         {"name": "E1-value-domain", "path": "harness/chk_stream.c, harness/chk_encode.c", "serves_properties": [p for p in ALL if CHECKS.get(p, {}).get("engine") == "E1-value-domain"],
          "kind_free_text": "complete enumeration of finite value domains (initial bytes, arguments, buffer lengths, float patterns) against reference tokeniser/encoder"},
     ],
